@@ -68,6 +68,27 @@ class FuncInfo:
             visit(st)
         return names
 
+    def is_straightline_leaf(self, repo_names):
+        """No loop, no comprehension, no await, and no call whose callee could be a function, method or class of the package
+        (by bare name): executing the body costs a constant number of statements plus built-in work. Such a call is not
+        counted as a step of the cost measure (DESIGN 10.9), so extracting a straight-line helper does not change step counts."""
+        cached = getattr(self, "_leaf", None)
+        if cached is not None:
+            return cached
+        leaf = True
+        for n in ast.walk(self.node):
+            if isinstance(n, (ast.For, ast.AsyncFor, ast.While, ast.ListComp, ast.SetComp, ast.DictComp, ast.GeneratorExp, ast.Await, ast.Lambda)):
+                leaf = False
+                break
+            if isinstance(n, ast.Call):
+                f = n.func
+                name = f.id if isinstance(f, ast.Name) else f.attr if isinstance(f, ast.Attribute) else None
+                if name is None or name in repo_names:
+                    leaf = False
+                    break
+        self._leaf = leaf
+        return leaf
+
     def local_signatures(self):
         """{local name: how it is first bound}, with the names of the function's own locals wildcarded - so that a renamed local
         keeps its signature. Used by rename_map when locals were renamed AND others were added or removed in the same function."""
@@ -206,6 +227,7 @@ class Program:
         self.src = os.path.join(self.repo_root, "src")
         self.funcs: dict[str, FuncInfo] = {}  # ref -> FuncInfo
         self.module_ast: dict[str, ast.Module] = {}
+        self._callable_names = None
         self.module_file: dict[str, str] = {}
         self.file_sha: dict[str, str] = {}
         self.imports: dict[str, dict[str, tuple]] = {}  # module -> name -> ("mod", modname) | ("from", modname, name)
@@ -280,6 +302,14 @@ class Program:
         self.python = data["python"]
 
     # ---------------------------------------------------------------- lookup
+    def repo_callable_names(self):
+        """bare names of every function, method and class of the package (for FuncInfo.is_straightline_leaf)"""
+        if self._callable_names is None:
+            names = {fi.node.name for fi in self.funcs.values()}
+            names |= {ref.split(":")[-1].split(".")[-1] for ref, ci in self.classes.items() if not ci.is_exception}  # raising is not a call
+            self._callable_names = names
+        return self._callable_names
+
     def find_func(self, dotted: str) -> FuncInfo | None:
         """dotted: dpapi_ng._gkdi.compute_l2_key or dpapi_ng._client.KeyCache._get_key"""
         parts = dotted.split(".")
